@@ -35,7 +35,7 @@ def materialise(t):
                 "p_id": r["pid"], "hh_id": r["hh"], "alter": 8 if child else 40, "kind": bool(child),
                 "p_id_ehepartner": r["sp"], "p_id_einstandspartner": r["pa"], "p_id_elternteil_1": r["e1"], "p_id_elternteil_2": r["e2"],
                 "gemeinsam_veranlagt": bool(r["gv"]), "bruttolohn_m": 0.0 if child else 2000.0 + r["pid"],
-                "p_id_kindergeld_empf": r["e1"] if child and r["e1"] not in (-1, 999) and r["e1"] != r["pid"] else -1,
+                "p_id_kindergeld_empf": r["e1"] if child and r["e1"] >= 0 and r["e1"] != 999 and r["e1"] != r["pid"] else -1,
             }
         )
     # build without validation side effects: pointer values may be dangling on purpose
@@ -129,7 +129,7 @@ def run(tier):
         chk.violation(f"C20|spec-theorem|{','.join(res.violated)}", "a fault action leaves the table Valid or a benign action breaks it (fault model error)", {"out": res.out[-2500:]})
         return chk.finish()
     chk.add_mc(res, "MC_Validate")
-    chk.require_actions(res, 10, "MC_Validate (9 fault classes + benign re-encoding)")
+    chk.require_actions(res, 11, "MC_Validate (10 fault classes + benign re-encoding)")
     states = tlaval.read_dump(str(dump) + ".dump")
     Path(str(dump) + ".dump").unlink()
     nf = lambda s: sum(1 for h in s["hist"] if h["fault"])  # noqa: E731
